@@ -32,7 +32,7 @@ PROPS["C13"] = dict(
 )
 
 PROPS["C14"] = dict(
-    jobs=[dict(variant="asan", shards=6), dict(variant="rel", shards=6)],
+    jobs=[dict(variant="asan", shards=7), dict(variant="rel", shards=7)],
     rule="one case = one table entry compared with bit-serial GF arithmetic (gf.c); every index each array has is visited; "
          "non-trivial = the entry has a field meaning (log[0], inv[0] and log indices >= 2^m are recorded only)",
     exhaustive={"quick": True, "thorough": True},
@@ -256,7 +256,7 @@ _LINES = {
          ("it_decoding/of_it_decoding.c", "of_linear_binary_code_decode_with_new_symbol (ofcb, const_term, decoded_symbol_esi);", "step 3: re-injection of a rebuilt repair symbol")],
  "C11": [("ml_decoding/of_ml_decoding.c", "void	*app_buf = ofcb->decoded_source_symbol_callback", "callback for a symbol recovered by Gaussian elimination")],
 }
-PROPS["C14"]["reach_shards"] = [0, 1, 2, 3, 4, 5]
+PROPS["C14"]["reach_shards"] = [0, 1, 2, 3, 4, 5, 6]
 PROPS["C19"]["reach_shards"] = [0, 1, 2, 3]
 PROPS["C19"]["require_counters"]["quick"]["reduction_boundary_steps_checked"] = 2 * 70000
 PROPS["C19"]["require_counters"]["thorough"]["reduction_boundary_steps_checked"] = 70000
